@@ -27,16 +27,38 @@ fn text(letter: char, tok: u32, lines: usize, k: usize) -> String {
         String::new()
     } else {
         // some payloads contain multi-byte characters (before and after the line breaks)
-        match tok % 3 {
+        let mut s = match tok % 3 {
             0 => format!("{}{}.{}", letter, tok, k),
             1 => format!("{}é{}.{}木", letter, tok, k),
             _ => format!("木{}{}.{}", letter, tok, k),
+        };
+        // some payloads use CR LF line ends or contain a CR / a tab / trailing blanks inside a line: only '\n' ends a line
+        match tok % 5 {
+            4 if k < lines => s.push('\r'),
+            3 => s.push_str("\r\t. "),
+            _ => {}
+        }
+        s
+    }
+}
+/// renderings outside the domain of C14 (used only for the cross-build digest of C17, never compared with the
+/// specification): 1 = ends in a newline, 2 = empty for every second payload, 3 = ends in a blank line
+static ODD: std::sync::atomic::AtomicUsize = std::sync::atomic::AtomicUsize::new(0);
+impl Doc {
+    fn render(&self, letter: char) -> String {
+        let t = (1..=self.lines).map(|k| text(letter, self.tok, self.lines, k)).collect::<Vec<_>>().join("\n");
+        match ODD.load(std::sync::atomic::Ordering::Relaxed) {
+            1 => t + "\n",
+            2 if self.tok % 2 == 0 => String::new(),
+            3 => t + "\n\n",
+            _ => t,
         }
     }
 }
-impl Doc {
-    fn render(&self, letter: char) -> String {
-        (1..=self.lines).map(|k| text(letter, self.tok, self.lines, k)).collect::<Vec<_>>().join("\n")
+fn fnv(h: &mut u64, bytes: &[u8]) {
+    for b in bytes {
+        *h ^= *b as u64;
+        *h = h.wrapping_mul(0x100000001b3);
     }
 }
 impl Doc {
@@ -118,6 +140,9 @@ pub fn run(args: &[String]) -> i32 {
     let mut findings: Vec<serde_json::Value> = Vec::new();
     let mut nviol = 0u64;
     let mut samples: Vec<serde_json::Value> = Vec::new();
+    let odd = args.iter().any(|a| a == "--digest-odd");
+    let mut digest: u64 = 0xcbf29ce484222325;
+    let mut odd_renderings = 0u64;
     for line in stdin.lock().lines() {
         let line = line.unwrap();
         if !line.starts_with('{') {
@@ -165,6 +190,30 @@ pub fn run(args: &[String]) -> i32 {
                             _ => format!("{:#?}", p),
                         }
                     }));
+                    match &got {
+                        Ok(t) => fnv(&mut digest, t.as_bytes()),
+                        Err(_) => fnv(&mut digest, b"<panic>"),
+                    }
+                    if odd && vi == 0 {
+                        for m in 1..=3 {
+                            ODD.store(m, std::sync::atomic::Ordering::Relaxed);
+                            let g = std::panic::catch_unwind(std::panic::AssertUnwindSafe(|| {
+                                let p = id.debug_pretty_print(a);
+                                match mode {
+                                    "{}" => format!("{}", p),
+                                    "{:#}" => format!("{:#}", p),
+                                    "{:?}" => format!("{:?}", p),
+                                    _ => format!("{:#?}", p),
+                                }
+                            }));
+                            ODD.store(0, std::sync::atomic::Ordering::Relaxed);
+                            odd_renderings += 1;
+                            match &g {
+                                Ok(t) => fnv(&mut digest, t.as_bytes()),
+                                Err(_) => fnv(&mut digest, b"<panic>"),
+                            }
+                        }
+                    }
                     let want_lines: Vec<(String, bool)> = exp
                         .iter()
                         .map(|ln| {
@@ -215,7 +264,8 @@ pub fn run(args: &[String]) -> i32 {
         }
     }
     let res = json!({"bundles": bundles, "abandoned_policy": abandoned, "renderings": renderings, "multi_line_renderings": multi, "lines_compared": lines_cmp,
-        "violations": nviol, "findings": findings, "samples": samples, "debug_assertions": cfg!(debug_assertions)});
+        "violations": nviol, "findings": findings, "samples": samples, "debug_assertions": cfg!(debug_assertions),
+        "digest": format!("{:016x}", digest), "renderings_outside_c14_digested": odd_renderings});
     std::fs::write(out, serde_json::to_string_pretty(&res).unwrap()).unwrap();
     0
 }
